@@ -52,6 +52,12 @@ def pre_ok(c: dict[str, Any], ts: list[int]) -> bool:
             for b in kids:
                 if a != b and (ts[2 * a] == ts[2 * b] or ts[2 * a + 1] == ts[2 * b]):
                     return False
+        if c.get("sorted_starts") and len(kids) >= 4:
+            # without loss of generality for large sibling sets: the generator enumerates every assignment of siblings to
+            # groups, so any start order is the image of this one under a renaming of the siblings
+            for a, b in zip(kids, kids[1:]):
+                if not ts[2 * a] < ts[2 * b]:
+                    return False
     return True
 
 
